@@ -13,7 +13,7 @@
    Proofs/SnapshotProofs.v. *)
 From Xeh Require Import Model.Prelude Model.Bits Model.Store.
 From Xeh Require Import Model.Cell Model.Vm Model.Words Model.Build.
-From Xeh Require Proofs.StoreProofs Proofs.SnapshotProofs.
+From Xeh Require Proofs.StoreProofs Proofs.SnapshotProofs Proofs.StoreDetach.
 Local Notation length := List.length.
 Local Open Scope nat_scope.
 Local Open Scope list_scope.
@@ -202,7 +202,7 @@ Check C03_substr : forall st h L s e,
   | None => ~ (s <= e /\ hstart h <= s /\ e <= hend h)
   end.
 
-(* detach: in place iff uniquely owned; either way nobody else sees a change, the bits are
+(* detach: in place iff uniquely owned and starting at bit 0; either way nobody else sees a change, the bits are
    the same and the result is uniquely owned *)
 Theorem C03_detach : forall st h L st' h',
   store_inv st (h :: L) -> h_detach st h = (st', h') ->
@@ -214,8 +214,9 @@ Check C03_detach : forall st h L st' h',
   store_inv st' (h' :: L) /\ (forall g, In g L -> view st' g = view st g) /\
   habs st' h' = habs st h /\ strong (sget st' (hptr h')) = 1.
 
-(* when detach copies: in place iff the strong count is 1, and under the invariant that
-   means that no other live handle is on the buffer *)
+(* when detach copies: in place iff the strong count is 1 AND the value starts at bit 0 (a
+   uniquely owned slice with a non-zero start is copied and rebased like a shared one), and
+   under the invariant "strong count 1" means that no other live handle is on the buffer *)
 Theorem C03_unique_iff_unshared : forall st h L, store_inv st (h :: L) ->
   (strong (sget st (hptr h)) = 1 <-> forall g, In g L -> hptr g <> hptr h).
 Proof. exact StoreProofs.unique_iff_unshared. Qed.
@@ -223,17 +224,17 @@ Check C03_unique_iff_unshared : forall st h L, store_inv st (h :: L) ->
   (strong (sget st (hptr h)) = 1 <-> forall g, In g L -> hptr g <> hptr h).
 
 Theorem C03_detach_in_place : forall st h,
-  strong (sget st (hptr h)) = 1 -> h_detach st h = (st, h).
+  strong (sget st (hptr h)) = 1 -> hstart h = 0 -> h_detach st h = (st, h).
 Proof. exact StoreProofs.h_detach_in_place. Qed.
 Check C03_detach_in_place : forall st h,
-  strong (sget st (hptr h)) = 1 -> h_detach st h = (st, h).
+  strong (sget st (hptr h)) = 1 -> hstart h = 0 -> h_detach st h = (st, h).
 
 Theorem C03_detach_copies : forall st h,
-  strong (sget st (hptr h)) <> 1 ->
+  strong (sget st (hptr h)) <> 1 \/ hstart h <> 0 ->
   hptr (snd (h_detach st h)) = length st /\ length (fst (h_detach st h)) = S (length st).
 Proof. exact StoreProofs.h_detach_copies. Qed.
 Check C03_detach_copies : forall st h,
-  strong (sget st (hptr h)) <> 1 ->
+  strong (sget st (hptr h)) <> 1 \/ hstart h <> 0 ->
   hptr (snd (h_detach st h)) = length st /\ length (fst (h_detach st h)) = S (length st).
 
 Theorem C03_make_mut : forall st h L st' h',
@@ -405,3 +406,242 @@ Example C03_snapshot_nonvacuous :
   let sp := pool_run [PNew [170%N] false; PClone 0] in
   survives [PInvert 0; PNew [1%N] true; PAppend 1 2] sp 1 = Some 0.
 Proof. vm_compute. reflexivity. Qed.
+
+(* ---------- (5) who else holds a buffer does not show in the representation of a result ----------
+
+   [h_detach] works in place only when the strong count is 1 AND the handle starts at bit 0;
+   otherwise it copies and rebases to bit 0.  (Before the repair a uniquely owned slice with
+   a non-zero start was kept in place, so the start offset of the result of append / invert /
+   insert depended on whether another interpreter clone still held the buffer.) *)
+
+(* (5a) the range of the result handle: start 0 whatever the strong counts - no invariant,
+   no hypothesis on the store at all *)
+Theorem C03_detach_start : forall st h st' h', h_detach st h = (st', h') ->
+  hstart h' = 0 /\ hend h' = hend h - hstart h.
+Proof. exact StoreDetach.h_detach_range. Qed.
+Check C03_detach_start : forall st h st' h', h_detach st h = (st', h') ->
+  hstart h' = 0 /\ hend h' = hend h - hstart h.
+
+Theorem C03_append_start : forall st h t st' h', h_append st h t = (st', h') ->
+  hstart h' = 0 /\ hend h' = (hend h - hstart h) + (hend t - hstart t).
+Proof. exact StoreDetach.h_append_range. Qed.
+Check C03_append_start : forall st h t st' h', h_append st h t = (st', h') ->
+  hstart h' = 0 /\ hend h' = (hend h - hstart h) + (hend t - hstart t).
+
+Theorem C03_invert_start : forall st h st' h', h_invert st h = (st', h') ->
+  hstart h' = 0 /\ hend h' = hend h - hstart h.
+Proof. exact StoreDetach.h_invert_range. Qed.
+Check C03_invert_start : forall st h st' h', h_invert st h = (st', h') ->
+  hstart h' = 0 /\ hend h' = hend h - hstart h.
+
+Theorem C03_insert_start : forall st h i s st' h', h_insert st h i s = Some (st', h') ->
+  hstart h + i <= hend h /\
+  hstart h' = 0 /\ hend h' = (hend h - hstart h) + (hend s - hstart s).
+Proof. exact StoreDetach.h_insert_range. Qed.
+Check C03_insert_start : forall st h i s st' h', h_insert st h i s = Some (st', h') ->
+  hstart h + i <= hend h /\
+  hstart h' = 0 /\ hend h' = (hend h - hstart h) + (hend s - hstart s).
+
+(* (5b) the whole view of the result handle (range AND backing bytes) is the value-level
+   operation of Bits.v on the views of the operands: for detach / invert with the ownership
+   flag "strong count is 1", for append / insert with EVERY flag - in particular with the
+   [false] the interpreter model uses *)
+Theorem C03_detach_view : forall st h st' h', h_detach st h = (st', h') ->
+  view st' h' = detach (strong (sget st (hptr h)) =? 1) (view st h).
+Proof. exact StoreDetach.h_detach_view. Qed.
+Check C03_detach_view : forall st h st' h', h_detach st h = (st', h') ->
+  view st' h' = detach (strong (sget st (hptr h)) =? 1) (view st h).
+
+Theorem C03_append_view : forall st h t L st' h' u,
+  store_inv st (h :: L) -> In t L -> h_append st h t = (st', h') ->
+  view st' h' = Bits.append u (view st h) (view st t).
+Proof. exact StoreDetach.h_append_view. Qed.
+Check C03_append_view : forall st h t L st' h' u,
+  store_inv st (h :: L) -> In t L -> h_append st h t = (st', h') ->
+  view st' h' = Bits.append u (view st h) (view st t).
+
+Theorem C03_invert_view : forall st h L st' h',
+  store_inv st (h :: L) -> h_invert st h = (st', h') ->
+  view st' h' = invert (strong (sget st (hptr h)) =? 1) (view st h).
+Proof. exact StoreDetach.h_invert_view. Qed.
+Check C03_invert_view : forall st h L st' h',
+  store_inv st (h :: L) -> h_invert st h = (st', h') ->
+  view st' h' = invert (strong (sget st (hptr h)) =? 1) (view st h).
+
+Theorem C03_insert_view : forall st h i s L u,
+  store_inv st (h :: L) -> In s L ->
+  match h_insert st h i s, insert u (view st h) i (view st s) with
+  | Some (st', h'), Some r => view st' h' = r
+  | None, None => True
+  | _, _ => False
+  end.
+Proof. exact StoreDetach.h_insert_view. Qed.
+Check C03_insert_view : forall st h i s L u,
+  store_inv st (h :: L) -> In s L ->
+  match h_insert st h i s, insert u (view st h) i (view st s) with
+  | Some (st', h'), Some r => view st' h' = r
+  | None, None => True
+  | _, _ => False
+  end.
+
+(* (5c) two stores / pools whose operand handles have the same views - they differ only in
+   who else holds the buffers (strong counts, other live handles, pointers) - give result
+   handles with the same [hstart], [hend] and bits.  For append / insert the whole view of the
+   result is the same; for detach / invert the backing bytes beyond the value may differ
+   (C03_bytes_beyond_the_value_may_differ). *)
+Theorem C03_detach_ownership_independent : forall st1 h1 L1 st1' h1' st2 h2 L2 st2' h2',
+  store_inv st1 (h1 :: L1) -> store_inv st2 (h2 :: L2) ->
+  view st1 h1 = view st2 h2 ->
+  h_detach st1 h1 = (st1', h1') -> h_detach st2 h2 = (st2', h2') ->
+  hstart h1' = hstart h2' /\ hend h1' = hend h2' /\ habs st1' h1' = habs st2' h2'.
+Proof. exact StoreDetach.h_detach_ownership_indep. Qed.
+Check C03_detach_ownership_independent : forall st1 h1 L1 st1' h1' st2 h2 L2 st2' h2',
+  store_inv st1 (h1 :: L1) -> store_inv st2 (h2 :: L2) ->
+  view st1 h1 = view st2 h2 ->
+  h_detach st1 h1 = (st1', h1') -> h_detach st2 h2 = (st2', h2') ->
+  hstart h1' = hstart h2' /\ hend h1' = hend h2' /\ habs st1' h1' = habs st2' h2'.
+
+Theorem C03_append_ownership_independent : forall st1 h1 t1 L1 st1' h1' st2 h2 t2 L2 st2' h2',
+  store_inv st1 (h1 :: L1) -> In t1 L1 -> store_inv st2 (h2 :: L2) -> In t2 L2 ->
+  view st1 h1 = view st2 h2 -> view st1 t1 = view st2 t2 ->
+  h_append st1 h1 t1 = (st1', h1') -> h_append st2 h2 t2 = (st2', h2') ->
+  hstart h1' = hstart h2' /\ hend h1' = hend h2' /\ habs st1' h1' = habs st2' h2' /\
+  view st1' h1' = view st2' h2'.
+Proof. exact StoreDetach.h_append_ownership_indep. Qed.
+Check C03_append_ownership_independent : forall st1 h1 t1 L1 st1' h1' st2 h2 t2 L2 st2' h2',
+  store_inv st1 (h1 :: L1) -> In t1 L1 -> store_inv st2 (h2 :: L2) -> In t2 L2 ->
+  view st1 h1 = view st2 h2 -> view st1 t1 = view st2 t2 ->
+  h_append st1 h1 t1 = (st1', h1') -> h_append st2 h2 t2 = (st2', h2') ->
+  hstart h1' = hstart h2' /\ hend h1' = hend h2' /\ habs st1' h1' = habs st2' h2' /\
+  view st1' h1' = view st2' h2'.
+
+Theorem C03_invert_ownership_independent : forall st1 h1 L1 st1' h1' st2 h2 L2 st2' h2',
+  store_inv st1 (h1 :: L1) -> store_inv st2 (h2 :: L2) ->
+  view st1 h1 = view st2 h2 ->
+  h_invert st1 h1 = (st1', h1') -> h_invert st2 h2 = (st2', h2') ->
+  hstart h1' = hstart h2' /\ hend h1' = hend h2' /\ habs st1' h1' = habs st2' h2'.
+Proof. exact StoreDetach.h_invert_ownership_indep. Qed.
+Check C03_invert_ownership_independent : forall st1 h1 L1 st1' h1' st2 h2 L2 st2' h2',
+  store_inv st1 (h1 :: L1) -> store_inv st2 (h2 :: L2) ->
+  view st1 h1 = view st2 h2 ->
+  h_invert st1 h1 = (st1', h1') -> h_invert st2 h2 = (st2', h2') ->
+  hstart h1' = hstart h2' /\ hend h1' = hend h2' /\ habs st1' h1' = habs st2' h2'.
+
+Theorem C03_insert_ownership_independent : forall st1 h1 s1 L1 st2 h2 s2 L2 i,
+  store_inv st1 (h1 :: L1) -> In s1 L1 -> store_inv st2 (h2 :: L2) -> In s2 L2 ->
+  view st1 h1 = view st2 h2 -> view st1 s1 = view st2 s2 ->
+  match h_insert st1 h1 i s1, h_insert st2 h2 i s2 with
+  | Some (st1', h1'), Some (st2', h2') =>
+    hstart h1' = hstart h2' /\ hend h1' = hend h2' /\ habs st1' h1' = habs st2' h2' /\
+    view st1' h1' = view st2' h2'
+  | None, None => True
+  | _, _ => False
+  end.
+Proof. exact StoreDetach.h_insert_ownership_indep. Qed.
+Check C03_insert_ownership_independent : forall st1 h1 s1 L1 st2 h2 s2 L2 i,
+  store_inv st1 (h1 :: L1) -> In s1 L1 -> store_inv st2 (h2 :: L2) -> In s2 L2 ->
+  view st1 h1 = view st2 h2 -> view st1 s1 = view st2 s2 ->
+  match h_insert st1 h1 i s1, h_insert st2 h2 i s2 with
+  | Some (st1', h1'), Some (st2', h2') =>
+    hstart h1' = hstart h2' /\ hend h1' = hend h2' /\ habs st1' h1' = habs st2' h2' /\
+    view st1' h1' = view st2' h2'
+  | None, None => True
+  | _, _ => False
+  end.
+
+(* (5d) the same under the weaker relation "the operands denote the same BITS" (their offsets
+   and buffers may differ too): range and bits of the result are functions of the operands'
+   bits alone *)
+Theorem C03_detach_same_bits : forall st1 h1 L1 st1' h1' st2 h2 L2 st2' h2',
+  store_inv st1 (h1 :: L1) -> store_inv st2 (h2 :: L2) ->
+  habs st1 h1 = habs st2 h2 ->
+  h_detach st1 h1 = (st1', h1') -> h_detach st2 h2 = (st2', h2') ->
+  hstart h1' = hstart h2' /\ hend h1' = hend h2' /\ habs st1' h1' = habs st2' h2'.
+Proof. exact StoreDetach.h_detach_same_bits. Qed.
+Check C03_detach_same_bits : forall st1 h1 L1 st1' h1' st2 h2 L2 st2' h2',
+  store_inv st1 (h1 :: L1) -> store_inv st2 (h2 :: L2) ->
+  habs st1 h1 = habs st2 h2 ->
+  h_detach st1 h1 = (st1', h1') -> h_detach st2 h2 = (st2', h2') ->
+  hstart h1' = hstart h2' /\ hend h1' = hend h2' /\ habs st1' h1' = habs st2' h2'.
+
+Theorem C03_append_same_bits : forall st1 h1 t1 L1 st1' h1' st2 h2 t2 L2 st2' h2',
+  store_inv st1 (h1 :: L1) -> In t1 L1 -> store_inv st2 (h2 :: L2) -> In t2 L2 ->
+  habs st1 h1 = habs st2 h2 -> habs st1 t1 = habs st2 t2 ->
+  h_append st1 h1 t1 = (st1', h1') -> h_append st2 h2 t2 = (st2', h2') ->
+  hstart h1' = hstart h2' /\ hend h1' = hend h2' /\ habs st1' h1' = habs st2' h2'.
+Proof. exact StoreDetach.h_append_same_bits. Qed.
+Check C03_append_same_bits : forall st1 h1 t1 L1 st1' h1' st2 h2 t2 L2 st2' h2',
+  store_inv st1 (h1 :: L1) -> In t1 L1 -> store_inv st2 (h2 :: L2) -> In t2 L2 ->
+  habs st1 h1 = habs st2 h2 -> habs st1 t1 = habs st2 t2 ->
+  h_append st1 h1 t1 = (st1', h1') -> h_append st2 h2 t2 = (st2', h2') ->
+  hstart h1' = hstart h2' /\ hend h1' = hend h2' /\ habs st1' h1' = habs st2' h2'.
+
+Theorem C03_invert_same_bits : forall st1 h1 L1 st1' h1' st2 h2 L2 st2' h2',
+  store_inv st1 (h1 :: L1) -> store_inv st2 (h2 :: L2) ->
+  habs st1 h1 = habs st2 h2 ->
+  h_invert st1 h1 = (st1', h1') -> h_invert st2 h2 = (st2', h2') ->
+  hstart h1' = hstart h2' /\ hend h1' = hend h2' /\ habs st1' h1' = habs st2' h2'.
+Proof. exact StoreDetach.h_invert_same_bits. Qed.
+Check C03_invert_same_bits : forall st1 h1 L1 st1' h1' st2 h2 L2 st2' h2',
+  store_inv st1 (h1 :: L1) -> store_inv st2 (h2 :: L2) ->
+  habs st1 h1 = habs st2 h2 ->
+  h_invert st1 h1 = (st1', h1') -> h_invert st2 h2 = (st2', h2') ->
+  hstart h1' = hstart h2' /\ hend h1' = hend h2' /\ habs st1' h1' = habs st2' h2'.
+
+Theorem C03_insert_same_bits : forall st1 h1 s1 L1 st2 h2 s2 L2 i,
+  store_inv st1 (h1 :: L1) -> In s1 L1 -> store_inv st2 (h2 :: L2) -> In s2 L2 ->
+  habs st1 h1 = habs st2 h2 -> habs st1 s1 = habs st2 s2 ->
+  match h_insert st1 h1 i s1, h_insert st2 h2 i s2 with
+  | Some (st1', h1'), Some (st2', h2') =>
+    hstart h1' = hstart h2' /\ hend h1' = hend h2' /\ habs st1' h1' = habs st2' h2'
+  | None, None => True
+  | _, _ => False
+  end.
+Proof. exact StoreDetach.h_insert_same_bits. Qed.
+Check C03_insert_same_bits : forall st1 h1 s1 L1 st2 h2 s2 L2 i,
+  store_inv st1 (h1 :: L1) -> In s1 L1 -> store_inv st2 (h2 :: L2) -> In s2 L2 ->
+  habs st1 h1 = habs st2 h2 -> habs st1 s1 = habs st2 s2 ->
+  match h_insert st1 h1 i s1, h_insert st2 h2 i s2 with
+  | Some (st1', h1'), Some (st2', h2') =>
+    hstart h1' = hstart h2' /\ hend h1' = hend h2' /\ habs st1' h1' = habs st2' h2'
+  | None, None => True
+  | _, _ => False
+  end.
+
+(* non-vacuity, on reachable pools.  A slice [4, 12) of ab cd; in pool A the original value
+   has been dropped (the slice is uniquely owned), in pool B it is still live (the buffer is
+   shared).  Both detach to a handle [0, 8) with the bits of bc - before the repair the first
+   one stayed at [4, 12). *)
+Example C03_detach_unique_vs_shared :
+  let spA := pool_run [PNew [171; 205]%N false; PSubstr 0 4 12; PDrop 0; PDetach 0] in
+  let spB := pool_run [PNew [171; 205]%N false; PSubstr 0 4 12; PDetach 1] in
+  let hA := nth 0 (snd spA) (mkh 0 0 0) in
+  let hB := nth 1 (snd spB) (mkh 0 0 0) in
+  (hstart hA, hend hA) = (0, 8) /\ (hstart hB, hend hB) = (0, 8) /\
+  habs (fst spA) hA = habs (fst spB) hB /\
+  habs (fst spA) hA = abs (from_bytes [188%N]).
+Proof. exact StoreDetach.pool_detach_unique_vs_shared. Qed.
+
+(* append / invert / insert on the uniquely owned and on the shared slice: same range, bits *)
+Example C03_ops_unique_vs_shared :
+  let pre := [PNew [171; 205]%N false; PNew [15%N] false; PSubstr 0 4 12] in
+  let res ops := let sp := pool_run ops in
+                 let h := nth (length (snd sp) - 1) (snd sp) (mkh 0 0 0) in
+                 (hstart h, hend h, habs (fst sp) h) in
+  res (pre ++ [PDrop 0; PAppend 1 0]) = res (pre ++ [PAppend 2 1]) /\
+  res (pre ++ [PDrop 0; PInvert 1]) = res (pre ++ [PInvert 2]) /\
+  res (pre ++ [PDrop 0; PInsert 1 3 0]) = res (pre ++ [PInsert 2 3 1]) /\
+  fst (fst (res (pre ++ [PDrop 0; PInvert 1]))) = 0.
+Proof. exact StoreDetach.pool_ops_unique_vs_shared. Qed.
+
+(* what may still differ between the two ownership situations: the backing bytes beyond the
+   value - a 4-bit value at the start of the byte ff is detached in place when uniquely owned
+   (stale bits stay), copied and left-aligned when the original is live *)
+Example C03_bytes_beyond_the_value_may_differ :
+  let spA := pool_run [PNew [255%N] false; PSubstr 0 0 4; PDrop 0; PDetach 0] in
+  let spB := pool_run [PNew [255%N] false; PSubstr 0 0 4; PDetach 1] in
+  let hA := nth 0 (snd spA) (mkh 0 0 0) in
+  let hB := nth 1 (snd spB) (mkh 0 0 0) in
+  (hstart hA, hend hA) = (hstart hB, hend hB) /\ habs (fst spA) hA = habs (fst spB) hB /\
+  cdata (view (fst spA) hA) = [255%N] /\ cdata (view (fst spB) hB) = [240%N].
+Proof. exact StoreDetach.pool_detach_bytes_differ. Qed.
